@@ -284,6 +284,24 @@ CLAIMED = {
         technique="TLA+ exact-arithmetic kernel spec model-checked by TLC + TLC trace validation of records taken from the real contacts",
         ref="5/C06",
     ),
+    "C11": dict(
+        level="model_checking",
+        text="RodKinematics.tla states the rod element's cross-section kinematics (centreline and orientation interpolation of the Quaternion and "
+             "R12 families, strain measures B_Gamma_bar / B_Kappa_bar, r_OP, v_P, B_Omega) and the nodal kinematic equation / unit-quaternion "
+             "condition once, in dual numbers over exact rationals: moving one nodal coordinate by eps yields the true column of every Jacobian. "
+             "TLC checks on a lattice that the quaternion family interpolates rotations (also to first order), that the curvature formula is the "
+             "axial vector of A^T A', that a node's cross-section has the nodal values and that q_dot keeps |P|^2; the as-found q_dot_u is "
+             "rejected. Real rod elements (Quaternion / R12, displacement-based / mixed, degree 1 / 2) at rational states with non-unit integer "
+             "nodal quaternions and rational xi (nodes and in between) give one record per coordinate direction of q_e / u_e with the columns of "
+             "_deval, r_OP_q, A_IB_q, v_P_q, J_P, J_P_q, B_J_R, and one per node and component with q_dot, q_dot_q, q_dot_u, g_S, g_S_q (incl. "
+             "SE3 rods); TLC recomputes every record. Float supplements: q_dot_u is the matrix of u -> q_dot, M symmetric positive semidefinite, "
+             "E_kin = u^T M u / 2, gyroscopic forces power-free.",
+        note="Claimed for the rational part of the property only. Not covered: internal-force / compliance / constraint Jacobians and everything "
+             "else integrated at Gauss points (irrational abscissae), the SE(3) interpolation (transcendental), a_P derivatives. Shape-function "
+             "values come from the rod's basis_functions_r (mesh layer: C13). Corrupted records must be rejected (self-test).",
+        technique="TLA+ dual-number (exact rational) specification model-checked by TLC + TLC trace validation of Jacobian columns recorded from real rod elements",
+        ref="5/C11",
+    ),
     "C12": dict(
         level="model_checking",
         text="MaterialLaw.tla states the strain energies of Simo1986 and Harsch2021 on strain states with integer |B_Gamma| and |B_Gamma0| "
@@ -385,7 +403,6 @@ CLAIMED = {
 NOT_APPLICABLE = {
     "C03": "derivatives of transcendental SO(3)/SE(3) maps down to 1e-9 angles: real analysis / high-precision arithmetic, no state, no rational core for TLC (32-bit integers, no reals)",
     "C10": "rod strain energy/forces are Gauss-quadrature integrals of normalised / transcendental fields: neither finite-state nor rational, nothing for a TLA+ model to state",
-    "C11": "same as C10 for all rod Jacobians and interpolation maps (mesh layer is C13, caches C26)",
     "C19": "convergence order, secular energy drift and reversibility up to tolerance are asymptotic real-valued trajectory properties; the rational fragment does not exercise constraints or stage 2",
     "C23": "equilibrium residuals and frame-indifference of static rod problems are real-valued; the load-step protocol is covered by the statics instances under C21",
 }
